@@ -354,6 +354,52 @@ fn gen_f5(unit: u32, out: &mut dyn FnMut(Pos)) {
     }
 }
 
+/// F6: checks by a pawn combined with everything else. White king on one of five squares,
+/// a black pawn on either square from which a pawn attacks that king, one more black piece
+/// (Q/R/B/N/P) anywhere, one white defender (Q/R/B/N/P) anywhere; white to move; plus the colour
+/// mirror. Covers pawn + slider / pawn + knight double checks, capturing the checking pawn with
+/// a pinned or unpinned piece, and en-passant-free pawn-check evasions.
+/// unit = (king index 0..5) * 64 + second attacker square.
+fn gen_f6(unit: u32, out: &mut dyn FnMut(Pos)) {
+    const KINGS: [(usize, usize); 5] = [(28, 63), (24, 63), (39, 56), (4, 62), (52, 0)];
+    let (wk, bk) = KINGS[(unit / 64) as usize];
+    let a2 = (unit % 64) as usize;
+    if a2 == wk || a2 == bk {
+        return;
+    }
+    let kf = (wk % 8) as i32;
+    let kr = (wk / 8) as i32;
+    for df in [-1, 1] {
+        let pawn = match sq_at(kf + df, kr + 1) {
+            Some(s) => s as usize,
+            None => continue,
+        };
+        if pawn == a2 || pawn == bk || pawn >= 56 {
+            continue;
+        }
+        for k2 in NON_KING {
+            for d in 0..64usize {
+                if d == wk || d == bk || d == pawn || d == a2 {
+                    continue;
+                }
+                for kd in NON_KING {
+                    let mut p = Pos::empty();
+                    p.sq[wk] = Some((Side::W, Kind::K));
+                    p.sq[bk] = Some((Side::B, Kind::K));
+                    p.sq[pawn] = Some((Side::B, Kind::P));
+                    p.sq[a2] = Some((Side::B, k2));
+                    p.sq[d] = Some((Side::W, kd));
+                    p.stm = Side::W;
+                    if p.is_valid() {
+                        out(p.mirror());
+                        out(p);
+                    }
+                }
+            }
+        }
+    }
+}
+
 fn span(outer: Vec<u32>) -> Vec<u32> {
     outer.iter().flat_map(|o| (0..64).map(move |i| o * 64 + i)).collect()
 }
@@ -386,6 +432,23 @@ pub fn classes(tier: &str) -> Vec<Class> {
             gen: gen_f4,
         },
     ];
+    v.push(Class {
+        name: "F6",
+        description: "pawn checks: K on e4/a4/h5/e1/e7, a black pawn on a square attacking it, one more black piece and one white defender (Q/R/B/N/P) anywhere; white to move; both colours",
+        units: span(vec![0, 1, 2, 3, 4]),
+        gen: gen_f6,
+    });
+    if !thorough {
+        // the complete sub-class of F5 with the kings on e4/h8 and the first attacker within two
+        // squares of the white king
+        let near: Vec<u32> = (0..64u32).filter(|s| ((*s % 8) as i32 - 4).abs() <= 2 && ((*s / 8) as i32 - 3).abs() <= 2 && *s != 28).map(|s| 64 + s).collect();
+        v.push(Class {
+            name: "F5",
+            description: "pins x double checks (quick: kings on e4/h8, first attacker within two squares of the white king): two enemy attackers (Q/R/B/N) and one own defender anywhere; both colours",
+            units: near,
+            gen: gen_f5,
+        });
+    }
     if thorough {
         v.push(Class {
             name: "F5",
